@@ -182,6 +182,14 @@ func init() {
 	}
 	harnessAPI["symxPermuteMaps"] = func(fr *frame, args []value) value {
 		fr.i.path.permute = args[0].(bool)
+		fr.i.path.permuteTwo = false
+		return nil
+	}
+	// symxPermuteMapsTwoOrders(on): every map is iterated in insertion order or in reverse insertion order, decided
+	// per map and kept across iterations of that map (a bounded subset of the orders symxPermuteMaps explores)
+	harnessAPI["symxPermuteMapsTwoOrders"] = func(fr *frame, args []value) value {
+		fr.i.path.permute = args[0].(bool)
+		fr.i.path.permuteTwo = args[0].(bool)
 		return nil
 	}
 	// symxPanicMode("ignore"|"violation")
